@@ -391,6 +391,28 @@ func closerManager(s *simrt.Sim) {
 			s.Logf("add racing Run -> %v", racerErr)
 		})
 	}
+	// a second Run while the first is under way (runners running, or closers running): refused, and at once -
+	// it has nothing to wait for
+	var run2Err error
+	var run2Took time.Duration
+	run2 := scenario != 2 && len(runners)+len(closers) > 0 && s.Choose(3, "run2") == 0
+	if run2 {
+		names = append(names, "run2")
+		s.Go("run2", func() {
+			s.WaitUntil("first-run-under-way", 0, func() bool {
+				for _, u := range append(append([]*unit(nil), runners...), closers...) {
+					if u.starts > 0 {
+						return true
+					}
+				}
+				return runRet != 0
+			})
+			s.Sleep(delays[s.Choose(len(delays), "run2At")])
+			t0 := time.Now()
+			run2Err = m.Run(context.Background())
+			run2Took = time.Since(t0)
+		})
+	}
 	switch scenario {
 	case 1:
 		doClose("close1", delays[s.Choose(len(delays), "closeAt")])
@@ -450,6 +472,13 @@ func closerManager(s *simrt.Sim) {
 	}
 	ran = true
 	_, _ = ran, runInv
+	if run2 {
+		if !errors.Is(run2Err, concurrency.ErrManagerAlreadyStarted) {
+			s.Fail("second-run", fmt.Sprintf("a second Run during the first returned %v", run2Err))
+		} else if run2Took > maxInjected {
+			s.Fail("second-run-blocked", fmt.Sprintf("a second Run during the first was refused only after %v: it waited for the first one's shutdown", run2Took))
+		}
+	}
 	if racer != nil {
 		switch {
 		case racerErr == nil:
